@@ -401,6 +401,37 @@ func cmdC0203(seed uint64, tier, outdir string) {
 			doCase(bc, input{fmt.Sprintf("near-threshold(%v,k=%d):%s", thr, k, d.name), []byte(strings.Join(out, " "))})
 		}
 	}
+	// dictionaries larger than the ranges in which token ids change representation (55296 = first UTF-16
+	// surrogate: the ids travel through go-diff as runes; 65536 = 16 bits): two fresh 30-word documents K and O
+	// interned after that many filler words, inputs = K with one or two words replaced by words of O
+	for _, nfill := range []int{55300, 65600} {
+		wd := func(prefix string, i int) string {
+			s := prefix
+			for v := i + 1; v > 0; v /= 26 {
+				s += string(rune('a' + v%26))
+			}
+			return s
+		}
+		var filler, kw, ow []string
+		for i := 0; i < nfill; i++ {
+			filler = append(filler, wd("f", i))
+		}
+		for i := 0; i < 30; i++ {
+			kw = append(kw, wd("kk", i))
+			ow = append(ow, wd("oo", i))
+		}
+		docs := []corpusDoc{{"License", "Filler", "f.txt", []byte(strings.Join(filler, " "))},
+			{"License", "K", "k.txt", []byte(strings.Join(kw, " "))}, {"License", "O", "o.txt", []byte(strings.Join(ow, " "))}}
+		bc := buildCorpus(0.8, docs)
+		for v := 0; v < 4; v++ {
+			in := append([]string{}, kw...)
+			in[3+r.intn(24)] = ow[r.intn(30)]
+			if v%2 == 1 {
+				in[3+r.intn(24)] = ow[r.intn(30)]
+			}
+			doCase(bc, input{fmt.Sprintf("large-dictionary(%d):K-with-words-of-O", nfill), []byte(strings.Join(in, " "))})
+		}
+	}
 	type outc struct{ c2, c3 string }
 	outs := make([]outc, len(jobs))
 	var wg sync.WaitGroup
